@@ -80,7 +80,8 @@ class Pkg:
         self.members = list(self.blobs)
         self.objects = []      # dicts, in file/archive order
         self.meta = None
-        self.msgs = {}         # id -> first message (for tables)
+        self.msgs = {}         # id -> first message
+        self.tiles = {}        # id -> first TST.Tile message stored under that id
         for mi, name in enumerate(self.members):
             if not name.endswith(".iwa"):
                 continue
@@ -99,9 +100,12 @@ class Pkg:
                         "hrefs": [r for i in infos for r in i.object_references],
                         "hdrefs": [r for i in infos for r in i.data_references],
                         "bytes": arch.header.SerializeToString() + b"".join(m.SerializePartialToString() for m in msgs),
+                        "msg": msgs[0] if msgs else None,
                     }
                     self.objects.append(o)
                     self.msgs.setdefault(o["id"], msgs[0] if msgs else None)
+                    if tname == "TST.Tile":
+                        self.tiles.setdefault(o["id"], msgs[0])
                     if tname == "TSP.PackageMetadata" and self.meta is None:
                         self.meta = msgs[0]
 
@@ -183,13 +187,13 @@ def abstract_tables(pkg: Pkg, objs: dict) -> list:
     for o in pkg.objects:
         if o["tname"] != "TST.TableModelArchive":
             continue
-        tm = pkg.msgs[o["id"]]
+        tm = o["msg"]
         tiles = []
         rewritten = objs[o["id"]]["touched"]
         resolved = True
         for t in tm.base_data_store.tiles.tiles:
-            tobj = pkg.msgs.get(t.tile.identifier)
-            if tobj is None or type(tobj).DESCRIPTOR.full_name != "TST.Tile":
+            tobj = pkg.tiles.get(t.tile.identifier)
+            if tobj is None:
                 resolved = False   # reported as a dangling reference by the object-level check
                 continue
             if not objs[t.tile.identifier]["added"]:
